@@ -532,8 +532,9 @@ func fuzzDecode(f *testing.F, target string) {
 		if len(buf) > 1<<16 {
 			return
 		}
-		if v, _ := checkDecode(DecodeCase{Prop: "C13", Kind: "decode", Target: target, NK: nkb, Buf: buf}); v != nil {
-			t.Fatalf("VERIF-VIOLATION property=C13 observer=%s :: %s", v.Obs, v.Msg)
+		c := DecodeCase{Prop: "C13", Kind: "decode", Target: target, NK: nkb, Buf: buf}
+		if v, _ := checkDecode(c); v != nil {
+			reportViolation(t, "C13", c, v) // writes the JSON replay file next to the fuzzer's own crasher file
 		}
 	})
 }
